@@ -211,11 +211,43 @@ fn run_line(line: &str) -> String {
 
 #[test]
 fn script_batch() {
-    for (i, l) in lines().iter().enumerate() {
-        // each scenario in its own process image would be cleaner; state is re-created per line and fds are closed
-        let out = run_line(l);
-        println!("VERIF-OUT {} {}", i, out);
+    // futures::select! takes its arm order from a per-thread xorshift generator whose seed is the hash of a process-wide counter
+    // (futures-util async_await/random.rs): the k-th thread that evaluates a select! always sees the same sequence.
+    // VERIF_SELECT_SEED_SKIP=k burns k seeds on throw-away threads and runs the scenario on a fresh thread, so that a replay can
+    // walk through different (deterministic) order sequences.
+    let skip: usize = std::env::var("VERIF_SELECT_SEED_SKIP").ok().and_then(|s| s.parse().ok()).unwrap_or(0);
+    if std::env::var("VERIF_SELECT_SEED_SKIP").is_err() {
+        for (i, l) in lines().iter().enumerate() {
+            // each scenario in its own process image would be cleaner; state is re-created per line and fds are closed
+            let out = run_line(l);
+            println!("VERIF-OUT {} {}", i, out);
+        }
+        return;
     }
+    for _ in 0..skip {
+        std::thread::spawn(|| {
+            use futures::future::FutureExt;
+            let mut a = futures::future::ready(()).fuse();
+            let mut b = futures::future::pending::<()>().fuse();
+            let waker = futures::task::noop_waker();
+            let mut cx = std::task::Context::from_waker(&waker);
+            let mut fut = Box::pin(async move {
+                futures::select! { _ = a => (), _ = b => () }
+            });
+            let _ = std::future::Future::poll(fut.as_mut(), &mut cx);
+        })
+        .join()
+        .unwrap();
+    }
+    let ls = lines();
+    std::thread::spawn(move || {
+        for (i, l) in ls.iter().enumerate() {
+            let out = run_line(l);
+            println!("VERIF-OUT {} {}", i, out);
+        }
+    })
+    .join()
+    .unwrap();
 }
 
 /// line: `<max_jobs> <parent jobserver in MAKEFLAGS 0|1> <REDO_CHEATFDS inherited 0|1>`
